@@ -214,4 +214,68 @@ example : reverseBits 70 [5, 0] = [0, 40] := by decide +kernel
 example : checkedNextPowerOfTwo 70 [5, 0] = some [8, 0] := by decide +kernel
 example : byte 70 [5, 0] 9 = none ∧ byte 70 [5, 0] 8 = some 0 := by decide +kernel
 
+/-- `leading_zeros` in terms of the binary expansion: the top `lz` of the `bits` positions are clear
+    and, unless the value is zero (`lz = bits`), the next one is set. -/
+theorem leading_zeros_testBit (bits : ℕ) (a : List ℕ) (ha : Canon bits a) :
+    leadingZeros bits a ≤ bits
+    ∧ (∀ i, bits - leadingZeros bits a ≤ i → (val a).testBit i = false)
+    ∧ (leadingZeros bits a < bits → (val a).testBit (bits - 1 - leadingZeros bits a) = true) := by
+  rw [leading_zeros_spec bits a ha]
+  have hle := size_le (val a) bits ha.val_lt
+  obtain ⟨t1, t2⟩ := size_testBit (val a)
+  refine ⟨by omega, fun i hi => t2 i (by omega), fun h => ?_⟩
+  have hne : val a ≠ 0 := by
+    intro h0; rw [h0, size_zero] at h; omega
+  have : bits - 1 - (bits - size (val a)) = size (val a) - 1 := by omega
+  rw [this]; exact t1 hne
+
+/-- `leading_ones` in terms of the binary expansion: the top `lo` positions are set and, unless the
+    value is `MAX` (`lo = bits`), the next one is clear. -/
+theorem leading_ones_testBit (bits : ℕ) (a : List ℕ) (ha : Canon bits a) :
+    leadingOnes bits a ≤ bits
+    ∧ (∀ i, bits - leadingOnes bits a ≤ i → i < bits → (val a).testBit i = true)
+    ∧ (leadingOnes bits a < bits → (val a).testBit (bits - 1 - leadingOnes bits a) = false) := by
+  obtain ⟨n1, _, n3⟩ := not_spec bits a ha
+  obtain ⟨z1, z2, z3⟩ := leading_zeros_testBit bits _ n1
+  unfold leadingOnes
+  refine ⟨z1, fun i hi hib => ?_, fun h => ?_⟩
+  · have := z2 i hi
+    rw [n3 i] at this
+    simpa [hib] using this
+  · have := z3 h
+    rw [n3] at this
+    have hlt : bits - 1 - leadingZeros bits (Bits.not bits a) < bits := by omega
+    simpa [hlt] using this
+
+/-- `trailing_zeros` in terms of the binary expansion: the low `tz` positions are clear and, unless the
+    value is zero (`tz = bits`), position `tz` is set. -/
+theorem trailing_zeros_testBit (bits : ℕ) (a : List ℕ) (ha : Canon bits a) :
+    (∀ i, i < trailingZeros bits a → (val a).testBit i = false)
+    ∧ (val a ≠ 0 → (val a).testBit (trailingZeros bits a) = true)
+    ∧ (val a = 0 → trailingZeros bits a = bits) := by
+  obtain ⟨h1, h2⟩ := trailingZeros_spec bits a ha
+  by_cases h0 : val a = 0
+  · refine ⟨fun i _ => by rw [h0]; exact Nat.zero_testBit i, fun h => absurd h0 h, h1⟩
+  · obtain ⟨m, e, hm⟩ := h2 h0
+    obtain ⟨p1, p2⟩ := testBit_pow_mul_odd (trailingZeros bits a) m hm
+    rw [← e] at p1 p2
+    exact ⟨p1, fun _ => p2, fun h => absurd h h0⟩
+
+/-- `trailing_ones` in terms of the binary expansion: the low `to` positions are set and position `to`
+    is clear (for `MAX`, `to = bits` and position `bits` is outside the word). -/
+theorem trailing_ones_testBit (bits : ℕ) (a : List ℕ) (ha : Canon bits a) :
+    trailingOnes bits a ≤ bits
+    ∧ (∀ i, i < trailingOnes bits a → (val a).testBit i = true)
+    ∧ (val a).testBit (trailingOnes bits a) = false := by
+  obtain ⟨m, e, hm⟩ := trailingOnes_spec bits a ha
+  obtain ⟨p1, p2⟩ := testBit_pow_mul_odd_pred (trailingOnes bits a) m hm
+  have : 2 ^ trailingOnes bits a * m - 1 = val a := by omega
+  rw [this] at p1 p2
+  refine ⟨?_, p1, p2⟩
+  by_contra hc
+  push Not at hc
+  have := p1 bits hc
+  rw [val_testBit_lt bits a ha bits (le_refl _)] at this
+  exact Bool.false_ne_true this
+
 end Ruint.C06
